@@ -56,7 +56,7 @@ class HCell:
                 txt, st = self.filltr.paren()
                 star = '*' if st else ''
                 tail = ' (%s)' % txt
-            if self.array is not None:
+            if self.array is not None and not getattr(self, 'single', False):
                 rng = ' '.join('%d:%d' % r for r in self.ranges)
                 s += ' %sfill=%s %s%s' % (star, rng, ' '.join(str(x) for x in self.array), tail)
             else:
